@@ -2,6 +2,7 @@ import FqModel.CtxStack
 import Proofs.C20Seq
 import Proofs.C20Spec
 import Proofs.C20Ctx
+import Proofs.C20Conc
 /-!
   C20 — an interrupt cancels exactly the innermost running evaluation, safely.
 
@@ -23,7 +24,7 @@ import Proofs.C20Ctx
        violates the specification on two sequential histories), `unlocked_witness` (without the mutex
        of commit 243f567c a schedule exists on which the goroutine indexes past a truncated slice);
    (e) every interleaving of the locked two-thread machine is equivalent to a sequential run —
-       `locked_linearizable` (see Proofs/C20Conc.lean).
+       `locked_linearizable`; it cannot deadlock — `locked_no_deadlock` (Proofs/C20Conc.lean).
   The Go scheduler and memory model are outside the logic (the mutex is modelled as an atomic
   test-and-set, every shared access as one atomic step); the race detector run of the harness is the
   runtime monitor for that part.
@@ -255,6 +256,57 @@ theorem unlocked_witness :
   decide
 
 
+/-! ### (e) the locked two-thread machine -/
+
+/-- Every interleaving of the current code's two-thread machine (mutex, one atomic step per access
+    to the shared slice headers / elements / flags) is equivalent to a sequential run:
+    for every program `prog` of the evaluator thread in which Stop (if any) comes last, and every
+    schedule, there is a sequence `lin` such that
+      * no Go runtime panic has happened,
+      * the shared state — with the critical section that is in progress, if any, run to its end —
+        is exactly `run .fixed lin`; when both threads are between operations it is the shared state itself,
+      * `lin` is the evaluator's operations executed so far, in program order (followed by the one it
+        has fetched but not yet linearized and the rest of the program: together the whole program),
+        with interrupts inserted, each at the moment the goroutine took the mutex for it,
+      * and not more interrupts than have arrived.
+    Together with `seq_refines_spec` every reachable state of the concurrent machine therefore
+    satisfies the specification for some such order. -/
+theorem locked_linearizable (prog : List Op) (hs : StopLast prog) (sched : List Tid) :
+    let c := crun .current sched (.init prog)
+    c.sh.rtPanic = false ∧
+    ∃ (lin : List Op) (cur : Nat),
+      absC c = run .fixed lin ∧
+      (c.epc = .idle → tIn c.tpc = false → c.sh = run .fixed lin) ∧
+      evalOps lin ++ inflight c.epc cur ++ evalOps c.prog = evalOps prog ∧
+      ints lin + c.pending + tok c + ints c.prog ≤ ints prog := by
+  intro c
+  have hg := gi_run sched (G.init prog) (gi_init prog hs)
+  have ha := acc_run prog sched (G.init prog) (gi_init prog hs) (acc_init prog)
+  have hc : (grun sched (G.init prog)).c = c := grun_c sched (G.init prog)
+  have hnp := gi_np hg
+  rw [hc] at hnp
+  refine ⟨hnp, (grun sched (G.init prog)).lin, (grun sched (G.init prog)).cur, ?_, ?_, ?_, ?_⟩
+  · rw [← hc]; exact hg.ab
+  · intro hidle htin
+    have := hg.ab
+    rw [hc, absC_eq c hnp, hidle, finT_out _ htin] at this
+    exact this
+  · have := ha.ord; rw [hc] at this; exact this
+  · have := ha.cnt; rw [hc] at this; exact this
+
+/-- the locked machine cannot deadlock: whenever the evaluator still has work, some thread can move -/
+theorem locked_no_deadlock (prog : List Op) (hs : StopLast prog) (sched : List Tid) :
+    let c := crun .current sched (.init prog)
+    (c.prog ≠ [] ∨ c.epc ≠ .idle) → (cstep .current .eval c).isSome = true ∨ (cstep .current .trig c).isSome = true := by
+  intro c hwork
+  have hg := gi_run sched (G.init prog) (gi_init prog hs)
+  have hc : (grun sched (G.init prog)).c = c := grun_c sched (G.init prog)
+  have hnp := gi_np hg
+  have hmi := hg.mi
+  rw [hc] at hnp hmi
+  rw [cstep_eq _ c hnp, cstep_eq _ c hnp]
+  exact progress c hmi hwork
+
 /-! ### non-vacuity: the hypotheses of the theorems above are satisfiable by non-trivial values -/
 
 /-- a history with nesting, an out-of-order finish and an interrupt: 3 evaluations, #1 and #2 ended by
@@ -287,5 +339,24 @@ example : (run .fixed exOps).ctxs.err 3 = true ∧ (run .fixed exOps).ctxs.err 0
 
 /-- innermost_is_innermost: both directions are inhabited -/
 example : (Spec.run exOps).innermost = some 3 ∧ (Spec.run [.push none, .finish 0]).innermost = none := by decide
+
+
+/-- locked_linearizable / locked_no_deadlock: a program with nesting, an arriving interrupt, an
+    out-of-order finish and a final Stop satisfies `StopLast`; on the schedule of `unlocked_witness`
+    extended to completion the locked machine ends in the sequential state of one linearization -/
+example : StopLast [.push none, .push (some 0), .interrupt, .finish 0, .finish 1, .stop] :=
+  stopLast_of_b _ (by decide)
+
+/-- the schedule of `unlocked_witness`, run on to quiescence -/
+def fullSched : List Tid := witnessSched ++ rep .trig 6 ++ rep .eval 12 ++ rep .trig 6
+
+-- on it the locked machine ends between operations in exactly the sequential state of the
+-- linearization push; finish 0; interrupt (the evaluator's critical sections went first)
+set_option maxRecDepth 10000 in
+example :
+    let c := crun .current fullSched (.init witnessProg)
+    c.epc = .idle ∧ c.tpc = .wait ∧ c.prog = [] ∧ c.pending = 0 ∧
+    c.sh = run .fixed [.push none, .finish 0, .interrupt] := by
+  decide
 
 end Props.C20
